@@ -4,7 +4,7 @@ use super::env::*;
 use crate::internal::path::{compare_names, validate_name};
 use std::cmp::Ordering;
 
-include!("uptable.rs"); // generated at run time: fn table_upper(c: char) -> char  (= real cfb_uppercase_char on SIGMA)
+use super::uptable::{table_upper, SIGMA}; // generated at run time (= real cfb_uppercase_char on SIGMA)
 
 /// Independent upper-casing on the alphabet (from Unicode simple case mapping).
 fn spec_upper(c: char) -> char {
@@ -97,6 +97,7 @@ macro_rules! cmp_ascii {
     ($name:ident, $la:expr, $lb:expr) => {
         #[kani::proof]
         #[kani::stub(std::fmt::format, stub_format)]
+        #[kani::stub(crate::internal::path::cfb_uppercase_char, table_upper)]
         #[kani::unwind(10)]
         fn $name() {
             let mut a = ['x'; $la];
